@@ -356,3 +356,8 @@ Proof. intros H p q Hpq. cbn [remove_edge sg_edges] in Hpq. apply remove_first_i
 
 Lemma srcs_out_gate g x c : srcs_ok g -> In c (sg_out g x) -> gate_at g x.
 Proof. intros H Hc. apply (H x c). now apply in_outs. Qed.
+
+Lemma add_edge_out_mono a b g g' x z : add_edge a b g = Some g' -> In z (sg_out g x) -> In z (sg_out g' x).
+Proof.
+  intros E H. rewrite (add_edge_eq a b g g' E). apply in_outs. cbn [sg_edges]. right. now apply in_outs.
+Qed.
